@@ -294,6 +294,32 @@ void add_body_matrix_cases(std::vector<ForkCase>& cases)
    }
 }
 
+// Every delimiter kind x every kind of enclosed operand, printed as an enclosure, as the initializer of a construction, and as
+// the initializer of a new-expression with and without placement arguments: parent x child x delimiter combinations.
+void add_enclosure_matrix_cases(std::vector<ForkCase>& cases)
+{
+   for (int delim = 0; delim < 5; ++delim) for (int inner = 0; inner < 4; ++inner) {
+      std::string label = "enclosure-matrix:" + std::to_string(delim) + "x" + std::to_string(inner);
+      cases.push_back({ label, [delim, inner, label](CaseOut& out) {
+         impl::Lexicon lex; impl::Translation_unit unit { lex }; const Lexicon& L = lex;
+         const Expr* operand = nullptr;
+         switch (inner) {
+         case 0: operand = lex.make_phantom(); break;
+         case 1: operand = lex.make_literal(L.int_type(), u8"7"); break;
+         case 2: operand = lex.make_expr_list(); break;
+         default: { auto* xl = lex.make_expr_list(); xl->push_back(lex.make_literal(L.int_type(), u8"1")); xl->push_back(lex.make_id_expr(lex.get_identifier(u8"x"))); operand = xl; break; }
+         }
+         auto* enc = lex.make_enclosure(Delimiter(delim), *operand);
+         auto* cons = lex.make_construction(L.int_type(), *enc);
+         auto* placement = lex.make_expr_list(); placement->push_back(lex.make_id_expr(lex.get_identifier(u8"buffer")));
+         const Expr* items[] = { enc, cons, lex.make_new(Optional<Expr_list>(), *cons), lex.make_new(Optional<Expr_list>(placement), *cons) };
+         const char* what[] = { "enclosure", "construction", "new", "placement-new" };
+         for (int k = 0; k < 4; ++k) { PrintCheck pc { out, label + ":" + what[k], R_EXPR, false, {} }; pc.run(lex, [&](Printer& pp) { pp << xpr_expr(*items[k]); }); }
+         out.count("enclosure_matrix_cases");
+      } });
+   }
+}
+
 void add_program_cases(std::vector<ForkCase>& cases, Rng& rng, bool thorough)
 {
    const int n = thorough ? 1500 : 30;
@@ -379,6 +405,7 @@ static void body(Ctx& C)
    add_delimiter_and_operator_cases(cases);
    add_nesting_cases(cases, rng, C.thorough);
    add_body_matrix_cases(cases);
+   add_enclosure_matrix_cases(cases);
    add_program_cases(cases, rng, C.thorough);
    std::vector<ForkCase> mine;
    for (std::size_t i = 0; i < cases.size(); ++i) if (int(i % std::size_t(C.workers)) == C.worker) mine.push_back(std::move(cases[i]));
@@ -386,7 +413,7 @@ static void body(Ctx& C)
    C.count("cases", (long long)mine.size());
    auto st = run_cases_forked(C, mine, 120);
    (void)st;
-   for (auto k : { "outcome:completed", "outcome:refused", "probes", "literal_spellings", "delimiter_cases", "operator_name_cases", "nesting_cases", "generated_programs", "located_statements_printed", "cases_completed", "numbers_checked", "body_matrix_cases" }) C.need(k);
+   for (auto k : { "outcome:completed", "outcome:refused", "probes", "literal_spellings", "delimiter_cases", "operator_name_cases", "nesting_cases", "generated_programs", "located_statements_printed", "cases_completed", "numbers_checked", "body_matrix_cases", "enclosure_matrix_cases" }) C.need(k);
    C.sample(J().s("case", "expr:Demotion").s("what", "a sweep node of kind Demotion offered as xpr_expr; outcome must be completed or refused(logic_error)").str());
    C.sample(J().s("case", "literal:single-byte 0x01").s("what", "literal whose spelling is byte 1, then 255/64/F7001:1234:89 through the same printer").str());
    C.sample(J().s("case", "nesting:depth-200").s("what", "200 nested if/while/switch/for/labeled/try constructs printed as one statement; indentation restored").str());
